@@ -1,6 +1,7 @@
 import os, re
 from kanirun import H, FAST
-from mirsym import mir, smt, modeb
+from mirsym import mir, smt, modeb, symex
+from mirsym.symex import bvconst, mk_not, mk_eq
 from mirsym_run import Q
 from common import *
 
@@ -29,24 +30,56 @@ KANI = [
 
 
 def build_footer_loops(fns):
-    """CasObjectInfoV1::deserialize reads exactly the declared number of hashes, boundaries and unpacked offsets: the three
-    read loops range over 0..num_chunks (the declared counts), not over a preallocation bound."""
-    f = mir.find_fn(fns, r"cas_object_format::<impl at cas_object/src/cas_object_format.rs:3\d\d[^>]*>::deserialize$")
-    counts = set()
-    for name in ("num_chunks_2", "num_chunks_3"):
-        if name not in f.debug:
-            raise LookupError("deserialize: %s not found" % name)
-        counts.add(f.debug[name][0])
-    ends = []
-    for bb in f.order:
-        for st in f.blocks[bb][0]:
-            m = re.search(r"= std::ops::Range::<u32> \{ start: const 0_u32, end: (?:copy|move) (_\d+) \}", st)
-            if m:
-                ends.append(m.group(1))
+    """every footer parser (V0 / V1, sync / async, boundaries-only) reads exactly the declared number of hashes, boundaries and
+    unpacked offsets: each read loop ranges over 0..<declared count>, never over the preallocation bound"""
     sc = smt.Script("c07_footer_read_loops")
-    sc.query("the footer parser has one read loop per section array (hashes, boundaries, unpacked offsets)", ["false"] if len(ends) == 3 else ["true"])
-    for i, e in enumerate(ends):
-        sc.query("read loop %d iterates over the declared chunk count" % i, ["false"] if e in counts else ["true"])
+    parsers = (("V1 sync", r"cas_object_format::<impl at cas_object/src/cas_object_format.rs:3\d\d[^>]*>::deserialize$", 3),
+               ("V1 async", r"cas_object_format::<impl at cas_object/src/cas_object_format.rs:3\d\d[^>]*>::deserialize_async_v1::\{closure#0\}$", 3),
+               ("V1 boundaries-only", r"cas_object_format::<impl at cas_object/src/cas_object_format.rs:3\d\d[^>]*>::deserialize_only_boundaries_section$", 0),
+               ("V0 sync", r"cas_object_format::<impl at cas_object/src/cas_object_format.rs:\d\d:[^>]*>::deserialize_v0$", 2),
+               ("V0 async", r"cas_object_format::<impl at cas_object/src/cas_object_format.rs:\d\d:[^>]*>::deserialize_async::\{closure#0\}$", 2))
+    total = 0
+    for label, pat, expect_loops in parsers:
+        f = mir.find_fn(fns, pat)
+        stmts = [(bb, st) for bb in f.order if not f.blocks[bb][2] for st in f.blocks[bb][0]]
+        copies = {}
+        for bb, st in stmts:
+            m = re.match(r"(.+?) = (?:copy|move) (.+?)(?: as \w+ \(IntToInt\))?$", st)
+            if m:
+                copies[m.group(1).strip()] = m.group(2).strip()
+
+        def root(x):
+            seen = set()
+            while x in copies and x not in seen:
+                seen.add(x)
+                x = copies[x]
+            return x
+        counts = set()
+        for name, places in f.debug.items():
+            if re.match(r"num_chunks", name):
+                counts.update(root(p_) for p_ in places)
+                counts.update(places)
+        pre = set()
+        for bb in f.order:
+            if f.blocks[bb][2]:
+                continue
+            t = mir.parse_term(f.blocks[bb][1])
+            if t["kind"] == "call" and re.search(r"prealloc_num_chunks$", t["func"]):
+                pre.add(t["dest"].strip())
+        ends = []
+        for bb, st in stmts:
+            m = re.search(r"= std::ops::Range::<\w+> \{ start: const 0_\w+, end: (?:copy|move) (.+?) \}$", st)
+            if m:
+                ends.append(m.group(1).strip())
+        if expect_loops and len(ends) < expect_loops:
+            sc.query("%s footer parser: one counted read loop per section array (found %d, expected %d)" % (label, len(ends), expect_loops), ["true"])
+        for i, e in enumerate(ends):
+            r = root(e)
+            total += 1
+            sc.query("%s footer parser: read loop %d does not range over a preallocation bound" % (label, i), ["false"] if (r not in pre and e not in pre) else ["true"])
+            sc.query("%s footer parser: read loop %d ranges over a declared chunk count" % (label, i), ["false"] if (r in counts or e in counts) else ["true"])
+    if total < 8:
+        raise LookupError("footer parsers: only %d counted read loops found" % total)
     sc.query("witness: loops found", ["true"], expect="sat", kind="witness")
     return [sc]
 
@@ -116,10 +149,118 @@ def build_decoders(fns):
     return [sc]
 
 
+def _scheme_values():
+    src = open(os.path.join(REPO, "cas_object/src/compression_scheme.rs")).read()
+    body = src[src.index("pub enum CompressionScheme"):]
+    body = body[body.index("{") + 1:body.index("}")]
+    vals = {m.group(1): int(m.group(2)) for m in re.finditer(r"(\w+)\s*=\s*(\d+)", body)}
+    if set(vals) != {"None", "LZ4", "ByteGrouping4LZ4"}:
+        raise LookupError("CompressionScheme variants changed: %s" % vals)
+    return vals
+
+
+def build_codec_dispatch(fns):
+    """each compression scheme is encoded and decoded by its own codec on every entry point, the byte-grouping codec splits before
+    and regroups after LZ4, and serialize_chunk records scheme None exactly when it stores the raw bytes"""
+    vals = _scheme_values()
+    symex.Sym.ENUMS = {}
+    for n, v in vals.items():
+        symex.Sym.ENUMS["CompressionScheme::%s" % n] = (v, 64)
+        symex.Sym.ENUMS["compression_scheme::CompressionScheme::%s" % n] = (v, 64)
+    sc = smt.Script("c07_codec_dispatch")
+    want = {"compress_from_slice": {"LZ4": r"(^|::)lz4_compress_from_slice$", "ByteGrouping4LZ4": r"bg4_lz4_compress_from_slice$"},
+            "decompress_from_slice": {"LZ4": r"(^|::)lz4_decompress_from_slice$", "ByteGrouping4LZ4": r"bg4_lz4_decompress_from_slice$"},
+            "decompress_from_reader": {"LZ4": r"(^|::)lz4_decompress_from_reader", "ByteGrouping4LZ4": r"bg4_lz4_decompress_from_reader"}}
+    for fn_name, codecs in want.items():
+        f = mir.find_fn(fns, r"compression_scheme::<impl at [^>]*>::%s$" % fn_name)
+        s = symex.Sym(f, prefix=fn_name[:6] + fn_name[-6:] + ".", models=symex.STD_MODELS, max_visits=1)
+        seen = set()
+        for i, p in enumerate(s.run("bb0", max_paths=200)):
+            if p.end != "return":
+                continue
+            dk = [k for k in p.store if k.startswith("discr(*_1") and p.store[k].kind == "bv"]
+            if not dk:
+                raise LookupError("%s: no dispatch on the scheme" % fn_name)
+            d = p.store[dk[0]].t
+            called = [n for n, pat in codecs.items() if any(re.search(pat, e[0]) for e in p.events)]
+            anycodec = [e[0] for e in p.events if re.search(r"lz4|bg4", e[0])]
+            if len(called) > 1:
+                sc.query("%s: one codec per path [path %d]" % (fn_name, i), ["true"])
+                continue
+            which = called[0] if called else ("None" if not anycodec else "?")
+            if which == "?":
+                sc.query("%s: the codec called is the scheme's own [path %d]" % (fn_name, i), ["true"])
+                continue
+            seen.add(which)
+            sc.query("%s: the %s codec runs exactly for scheme %s [path %d]" % (fn_name, "no-op" if which == "None" else which, which, i), p.pc + [mk_not(mk_eq(d, bvconst(vals[which], 64)))])
+            sc.query("witness: %s path feasible [path %d]" % (fn_name, i), p.pc, expect="sat", kind="witness")
+        sc.query("%s: all three schemes are dispatched" % fn_name, ["false"] if seen == set(vals) else ["true"])
+        sc.declare(s.decls)
+    # the byte-grouping codec: split before LZ4 on the way in, regroup after LZ4 on the way out; plain LZ4 never groups
+    RES = r"FromResidual<.*>>::from_residual$"
+    for fn_pat, label, must, order in ((r"^bg4_lz4_compress_from_slice$", "bg4 compress", [r"bg4_split", r"FrameEncoder"], (r"bg4_split", r"FrameEncoder")),
+                                       (r"^bg4_lz4_decompress_from_reader$", "bg4 decompress", [r"FrameDecoder", r"bg4_regroup"], (r"FrameDecoder", r"bg4_regroup")),
+                                       (r"^lz4_compress_from_slice$", "lz4 compress", [r"FrameEncoder"], None), (r"^lz4_decompress_from_reader$", "lz4 decompress", [r"FrameDecoder"], None)):
+        g = modeb.CFG(mir.find_fn(fns, fn_pat))
+        resid = g.blocks_calling(RES)
+        for m_ in must:
+            b = g.blocks_calling(m_)
+            if not b:
+                sc.query("%s: goes through %s" % (label, m_), ["true"])
+            else:
+                modeb.no_path_query(g, sc, "%s: every Ok result went through %s" % (label, m_), [g.entry], sorted(g.real_returns), b + resid)
+        if order:
+            a, b = g.blocks_calling(order[0]), g.blocks_calling(order[1])
+            if a and b:
+                modeb.no_path_query(g, sc, "%s: %s comes before %s" % (label, order[0], order[1]), [g.entry], b, a)
+        else:
+            sc.query("%s: no byte grouping in the plain LZ4 codec" % label, ["false"] if not g.blocks_calling(r"bg4_") else ["true"])
+    # serialize_chunk: scheme None in the header <=> the raw chunk is what is written
+    f = mir.find_fn(fns, r"^(cas_chunk_format::)?serialize_chunk$")
+    s = symex.Sym(f, prefix="ser.", models=symex.STD_MODELS, max_visits=1)
+    n_raw = n_cmp = 0
+    for i, p in enumerate(s.run("bb0", max_paths=400)):
+        hd = [e for e in p.events if re.search(r"CASChunkHeader::new$", e[0])]
+        wa = [e for e in p.events if re.search(r"Write>::write_all$", e[0])]
+        if p.end != "return" or len(hd) != 1 or len(wa) != 1:
+            continue
+        scheme = hd[0][4][0]
+        into = [e for e in p.events if re.search(r"as Into<Cow<'_, \[u8\]>>>::into$", e[0])]
+        raw_vals = set()
+        for e in into:
+            v = p.store.get(mir.parse_term(f.blocks[e[2]][1])["dest"].strip())
+            if v is not None:
+                raw_vals.add(v.t)
+        a = wa[0][4][1]
+        payload = None
+        if a.kind == "ref" and a.t[0] == "deref":
+            payload = s.load(p, a.t[1], "Cow")
+        if payload is None:
+            sc.query("serialize_chunk: the payload written is a buffer of this function [path %d]" % i, ["true"])
+            continue
+        is_raw = payload.t in raw_vals or any(getattr(x, "t", None) in raw_vals for x in (payload.items or []))
+        none_const = scheme.kind == "bv" and scheme.t == bvconst(vals["None"], 64)
+        if is_raw:
+            n_raw += 1
+        else:
+            n_cmp += 1
+        sc.query("serialize_chunk: the header records scheme None exactly when the raw chunk is stored instead of the codec output [path %d: %s]" % (i, "raw" if is_raw else "codec output"),
+                 ["false"] if is_raw == none_const else ["true"])
+    if not (n_raw and n_cmp):
+        sc.query("serialize_chunk: has both a raw-fallback path and a codec-output path to the header and the payload write (%d/%d)" % (n_raw, n_cmp), ["true"])
+    sc.declare(s.decls)
+    return [sc]
+
+
 SMT = [Q("c07_footer_read_loops", "footer parser reads as many entries as declared", "cas_object", build_footer_loops,
-         functions=["cas_object::cas_object_format::CasObjectInfoV1::deserialize"], bounds="structure of the function", replay=replay_many, solvers=("z3",)),
+         functions=["cas_object::cas_object_format::CasObjectInfoV1::{deserialize, deserialize_async_v1, deserialize_only_boundaries_section}", "CasObjectInfoV0::{deserialize_v0, deserialize_async}"],
+         bounds="structure of the functions", replay=replay_many, solvers=("z3",)),
        Q("c07_decoder_discipline", "chunk decoders read the whole header and decode the payload by the header (Mode B)", "cas_object", build_decoders,
          functions=["cas_object::cas_chunk_format::deserialize_chunk_to_writer", "cas_object::cas_chunk_format::deserialize_chunk_header",
                     "cas_object::deserialize_async::deserialize_chunk_to_writer", "cas_object::deserialize_async::deserialize_chunk_header"], bounds="all CFG paths",
          solvers=("z3", "cvc5-bv"),
-         replay=native_test("c07_decoder_agreement", "C07 violated", "native replay passes: sync / async / stream decoders return the serialized bytes (equal-length LZ4 frame, split headers)"))]
+         replay=native_test("c07_decoder_agreement", "C07 violated", "native replay passes: sync / async / stream decoders return the serialized bytes (equal-length LZ4 frame, split headers)")),
+       Q("c07_codec_dispatch", "every scheme is encoded / decoded by its own codec; scheme None <=> raw bytes stored", "cas_object", build_codec_dispatch,
+         functions=["cas_object::compression_scheme::CompressionScheme::{compress_from_slice,decompress_from_slice,decompress_from_reader}", "bg4_lz4_* / lz4_* helpers", "cas_object::cas_chunk_format::serialize_chunk"],
+         bounds="all paths", solvers=("z3", "cvc5-bv"),
+         replay=native_test("c07_decoder_agreement", "C07 violated", "native replay passes: all decoders agree for every scheme"))]
